@@ -63,7 +63,7 @@ for fn, nm in SCAN1:
     J('A.%s' % nm, ['C02', 'C05', 'C01'] + (['C10'] if (fn <= 7 or fn >= 20) else ['C03', 'C06', 'C08']), 'A', 'contracts/extstr/scan1.spec.c',
       defines=['FN=%d' % fn], sources=[src], overlays={src: 'contracts/extstr/scan1_%s.loops' % nm},
       enforce='_%s_chk' % nm, functions=['_%s_chk' % nm], sliced=False, timeout=600,
-      fallback=('B.q.%s' % nm if (fn <= 7 or fn >= 20) else None),
+      fallback=('B.q.%s' % nm if (fn <= 7 or fn >= 20) else 'B.w.%s' % nm),
       note='exact-fit object of symbolic size, dmax any 64-bit value, object size known or unknown to the library')
 
 for fn, nm in ((1, 'strfirstdiff_s'), (2, 'strfirstsame_s'), (3, 'strlastdiff_s'), (4, 'strlastsame_s')):
@@ -137,6 +137,12 @@ for fam, wide in ((COPYFAM, False), (WCOPYFAM, True)):
               bound='dest of %d elements, dmax %d..%d (beyond the 0x20 switch), %s, dest below / above src at fixed offsets; all contents symbolic'
                     % (0x20 + 2 * sl + 4, 0x20 + 2 * sl + 2, 0x20 + 2 * sl + 4,
                        'a source of as many non-zero elements that cannot fit (error path)' if long else 'strings <= %d elements, slen <= %d' % (sl, sl + 1)))
+
+# ---- single-loop dest-only writers against reference semantics (also the replay fallback of A.<fn>)
+for fn, nm in ((10, 'strzero_s'), (11, 'strset_s'), (12, 'strtolowercase_s'), (13, 'strtouppercase_s'), (14, 'strnterminate_s'), (15, 'strnset_s')):
+    J('B.w.%s' % nm, ['C01', 'C02', 'C03', 'C05', 'C06', 'C08'], 'B', 'harness/scanfam.c', sources=['src/extstr/%s.c' % nm] + STR_COMMON,
+      defines=['FN=%d' % fn], unwind=8, object_bits=10, replay=True, functions=['_%s_chk' % nm], timeout=600,
+      bound='exact-fit dest object of 1..5 characters, all contents; dmax, value, n symbolic; object size known or unknown')
 
 # ---- C12 / C13: census of static-lifetime storage over all library translation units
 import census  # noqa: E402
